@@ -1,1 +1,11 @@
-def main : IO Unit := pure ()
+import Driver.Loop
+import Driver.C01
+open Kv
+
+/-- full driver: regenerated model + monitor -/
+def dispatch (prop : String) (l : Line) : String :=
+  match prop with
+  | "C01" => Drv.C01.step l
+  | _ => "bad-op"
+
+def main : IO Unit := driverMain dispatch
